@@ -203,6 +203,15 @@ CLAIMS = {
             "(exact number tokens, RFC 4180 on bytes) compare with the view. One defect repaired (invalid JSON escapes), one recorded (NaN/Inf).",
             "Times/durations only required to be strings; two object shapes never meet in one union. Trusted: Python json, the CSV state machine.",
             "spec-generated universe (TLA+ views exported by TLC) replayed through the real formatters and CLI with decoding oracles", "DESIGN.md 6/C25"),
+    "C24": ("model_checking",
+            "Schema.tla: a CSV cell is a text with the set of its readings (Int / Float / Boolean / Time / String / NULL values it denotes), a JSON value an abstract "
+            "document; Rep(cell, T) says the cell has a reading in the reported type T, Match(cell, v, T) that the produced value is such a reading. SchemaCases.tla "
+            "generates files under the TLC seed (per column the cells cycled through the 100-row inference preview and the cells after it); the real datasources run "
+            "SELECT * over them in-process; SchemaCheck.tla (TLC) judges the reported types, produced rows and failure status: every produced value is a Match, the run "
+            "fails exactly at the first row with a cell that is not Rep, preview rows are always Rep. A CLI sample checks --describe text and exit status. Five "
+            "genuine defects (incl. a process crash) were repaired.",
+            "The catalogue is finite (64 CSV texts, JSON documents to depth 2). Extra JSON keys not required to be errors. Trusted: file writers, canonical value rendering.",
+            "TLA+ spec (readings / representability) + TLC-generated files run through the real datasources + TLC judging the recorded observations", "DESIGN.md 6/C24"),
 }
 
 NA_DEFAULT = "check not built yet (work in progress; will be claimed once its TLA+ spec and conformance harness are committed)"
